@@ -168,9 +168,18 @@ func (m *migrateBuilder) addModule(ctx context.Context, moduleDirPath string) (r
 	// First get module configs from the buf.yaml at moduleDir.
 	bufYAMLFile, err := bufconfig.GetBufYAMLFileForPrefix(ctx, m.bucket, moduleDirPath)
 	if errors.Is(err, fs.ErrNotExist) {
-		// If buf.yaml isn't present, migration does not fail. Instead we add an
-		// empty module config representing this directory.
+		// If buf.yaml isn't present, migration does not fail. Instead we add a
+		// module config representing this directory. The v1 defaults applied to
+		// this directory, so its lint and breaking configs are their v2 equivalents.
 		moduleRootRelativeToDestination, err := normalpath.Rel(m.destinationDirPath, moduleDirPath)
+		if err != nil {
+			return err
+		}
+		lintConfig, err := equivalentLintConfigInV2(ctx, m.logger, bufconfig.DefaultLintConfigV1)
+		if err != nil {
+			return err
+		}
+		breakingConfig, err := equivalentBreakingConfigInV2(ctx, m.logger, bufconfig.DefaultBreakingConfigV1)
 		if err != nil {
 			return err
 		}
@@ -184,27 +193,8 @@ func (m *migrateBuilder) addModule(ctx context.Context, moduleDirPath string) (r
 			map[string][]string{
 				".": {},
 			},
-			bufconfig.NewLintConfig(
-				bufconfig.NewEnabledCheckConfigForUseIDsAndCategories(
-					bufconfig.FileVersionV2,
-					nil,
-					false,
-				),
-				"",
-				false,
-				false,
-				false,
-				"",
-				false,
-			),
-			bufconfig.NewBreakingConfig(
-				bufconfig.NewEnabledCheckConfigForUseIDsAndCategories(
-					bufconfig.FileVersionV2,
-					nil,
-					false,
-				),
-				false,
-			),
+			lintConfig,
+			breakingConfig,
 		)
 		if err != nil {
 			return err
